@@ -1,2 +1,6 @@
-/-! Driver for C11 (stub: not built yet). -/
-def main : IO Unit := pure ()
+import Drivers.Proto
+import PymocaVerif.Model.GenJson
+/-! Driver for C11: the serialised real flat AST of a model + evaluation points ↦ residual values by
+    the model of the generator (`evalC ∘ gen`) and by the Modelica meaning (`evalM`); the model's
+    operator / method tables. -/
+def main : IO Unit := Drivers.serve PymocaVerif.GenJson.handle
